@@ -3,6 +3,7 @@ package zygo
 import (
 	"fmt"
 	"reflect"
+	"sort"
 	"time"
 )
 
@@ -397,7 +398,9 @@ func TypeListFunction(env *Zlisp, name string, args []Sexp) (Sexp, error) {
 }
 
 func (env *Zlisp) ImportBaseTypes() {
-	for _, e := range GoStructRegistry.Builtin {
+	// in name order: the names are interned here, and symbol numbers
+	// must not depend on the iteration order of a Go map.
+	for _, e := range sortedRegisteredTypes(GoStructRegistry.Builtin) {
 		env.AddGlobal(e.RegisteredName, e)
 	}
 
@@ -407,7 +410,7 @@ func (env *Zlisp) ImportBaseTypes() {
 	// A type registered by an earlier interpreter must not replace a
 	// builtin of this one.
 	glob := env.linearstack.elements[0].(*Scope)
-	for _, e := range GoStructRegistry.Userdef {
+	for _, e := range sortedRegisteredTypes(GoStructRegistry.Userdef) {
 		if !e.hasShadowStruct {
 			// declared by a script (struct, defmap, a record kind made
 			// on first use) of some interpreter of this process, not
@@ -421,6 +424,19 @@ func (env *Zlisp) ImportBaseTypes() {
 		}
 		env.AddGlobal(e.RegisteredName, e)
 	}
+}
+
+func sortedRegisteredTypes(m map[string]*RegisteredType) []*RegisteredType {
+	names := make([]string, 0, len(m))
+	for name := range m {
+		names = append(names, name)
+	}
+	sort.Strings(names)
+	res := make([]*RegisteredType, 0, len(m))
+	for _, name := range names {
+		res = append(res, m[name])
+	}
+	return res
 }
 
 func compareRegisteredTypes(a *RegisteredType, bs Sexp) (int, error) {
